@@ -17,6 +17,7 @@ import SpiceEv.Cmd.Battery
 import SpiceEv.Cmd.Strategies
 import SpiceEv.Cmd.Distributed
 import SpiceEv.Cmd.StratDistributed
+import SpiceEv.Cmd.FlexBand
 import SpiceEv.Cmd.StratPeakShaving
 import SpiceEv.Cmd.StratFlexWindow
 import SpiceEv.Cmd.StratSchedule
@@ -35,6 +36,7 @@ def allHandlers : List (String × Handler) :=
   ++ Cmd.Strategies.handlers
   ++ Cmd.Distributed.handlers
   ++ Cmd.StratDistributed.handlers
+  ++ Cmd.FlexBand.handlers
   ++ PeakShaving.Cmd.handlers
   ++ Cmd.StratFlexWindow.handlers
   ++ Cmd.StratSchedule.handlers
